@@ -91,11 +91,14 @@ class PDFPage:
             if isinstance(obj, int):
                 object_id = obj
                 object_properties = dict_value(document.getobj(object_id)).copy()
-            else:
+            elif hasattr(obj, "objid"):
                 # This looks broken. obj.objid means obj could be either
                 # PDFObjRef or PDFStream, but neither is valid for dict_value.
-                object_id = obj.objid  # type: ignore[attr-defined]
+                object_id = obj.objid
                 object_properties = dict_value(obj).copy()
+            else:
+                log.warning("Ignoring page tree node that is not a reference: %r", obj)
+                return
 
             # Avoid recursion errors by keeping track of visited nodes
             if visited is None:
